@@ -9,6 +9,13 @@ WIRE_NOTE = ("Trusted: TLC 1.8.0; the harness abstraction/concretisation (token 
              "value leaves are canonical text tokens, so numeric fidelity is decided by string equality of harness renderings, not by TLC arithmetic.")
 
 CHECKS = {
+ "C01": dict(
+   text="SebufCall.tla models one client call as Start / Sent / Saw / Ret with the C01 obligations as action guards (the request line and body the client must put on the wire, the handler of exactly that RPC sees the caller's value, the caller gets the handler's response). MC_Call model-checks the contract client (identity on tokens) and enumerates verb x URL-field kind x value classes (zero, min, max, > 2^53, non-ASCII, URL-reserved) x body shape x content type x route (explicit template / default route) around a base point (3344 cases); each is executed through the REAL emitted Go client against the REAL emitted Go server of several packages generated in one invocation, with the HTTP request intercepted, and TLC validates every recorded Sent / Saw / Ret event against the logged call.",
+   design="§7 C01", technique="TLA+ model checking (TLC) + replay of TLC-enumerated calls through the real emitted client and server + TLC trace validation"),
+ "C20": dict(
+   text="SebufMock.tla states what the contract fixes about a mock reply (MockReplyConforms = Validates and Described against the RPC's published 200 schema, ExamplesUsed over the reply's leaves). MC_Pipeline family C20 (18 field kinds x 6 cardinalities incl. oneof members x example sets none / parsable / mixed / unparsable / awkward strings / out-of-range x nestings flat, nested, map value, recursive, two services, proto-nested with a same-named decoy, imported file: 304 schemas) is enumerated by TLC; every schema is generated with generate_mock=true, built, linked with the real emitted server, every mock RPC invoked 6 (quick) / 20 (thorough) times over HTTP, and TLC judges every MockBuild and Mock event on the real OpenAPI document of the same schema.",
+   design="§7 C20", technique="TLA+ model checking (TLC) of the schema family + TLC trace validation (inventory mode) of real mock builds and real mock replies against the real emitted response schema",
+   note="Trusted: TLC; go build as instrument; string -> typed example parsing is done by the harness with strconv (the specification compares canonical tokens); randomness of example selection is sampled by repetition."),
  "C02": dict(
    text="SebufWire.tla is model-checked exhaustively (MC_Wire_C02: verb x body shape x content type x URL value classes, 4320 abstract requests) for C02_UrlWins / C02_BadUrl400; every TLC-enumerated request is concretised per field kind and replayed through the real emitted BindingMiddleware, and the recorded events (BodyRead, HandlerSaw, Resp) are validated by TLC against Trace_Wire.tla, which re-derives the admissible handler view from the logged abstract request.",
    design="§7 C02", technique="TLA+ model checking (TLC) + replay of TLC-enumerated requests + TLC trace validation of real server events"),
